@@ -110,6 +110,22 @@ def r1_operator_tables(rule, root=None):
         rule.ok("register_binary_fns registers both overloads under the same operator")
     else:
         rule.bad("macro|reg-bin", "register_binary_fns must register $name::tree_dyn and $name::dyn_tree under $op", A.where(reg))
+    # axes(): the map #{x, y, z} of the coordinate trees
+    ax_calls = [c for c in A.find(reg["body"], "MethodCall") if c["method"] == "register_fn" and c["args"] and str(A.ftxt(c["args"][0])) == '"axes"']
+    if len(ax_calls) != 1:
+        rule.lost('the registration of "axes" in tree::register')
+    else:
+        ins = {}
+        for c in A.find(ax_calls[0]["args"][1], "MethodCall"):
+            if c["method"] == "insert" and len(c["args"]) == 2:
+                k_ = re.match(r'"(\w)"', str(A.ftxt(c["args"][0])))
+                v_ = re.search(r"Tree::(\w)\(\)", str(A.ftxt(c["args"][1])))
+                if k_:
+                    ins[k_.group(1)] = v_.group(1) if v_ else "?"
+        if ins == {"x": "x", "y": "y", "z": "z"}:
+            rule.ok("axes() maps x, y, z to Tree::x(), Tree::y(), Tree::z()", file=TREE, line=ax_calls[0]["ln"])
+        else:
+            rule.bad("axes|map", "axes() builds the map %s; each of x, y, z must be its own coordinate tree" % ins, A.where(reg, ax_calls[0]))
     # comparison ban: every comparison operator is registered to rejecting functions covering (Tree, other) and
     # (other, Tree); read from the registrations themselves, however the loop and the functions are spelled
     regs = []
@@ -797,8 +813,8 @@ CONVERSIONS = {
     "Vec2": ["cast:Self", "array:f32"],  # a vec2 value, or [x, y]
     "Vec3": ["from:Vec2", "cast:Self", "array:f32"],  # a 2D position is promoted with the field's default z; a vec3; [x, y(, z)]
     "Vec4": ["cast:Self", "array:f32"],
-    "Axis": ["cast:Self", "from:Vec3", "cast:Tree"],  # an axis value, a direction vector, or one of the trees x / y / z
-    "Plane": ["cast:Self", "from:Axis"],  # a plane value, or an axis (plane through the origin)
+    "Axis": ["cast:Self", "from:Vec3", "name:string", "name:char", "cast:Tree"],  # an axis value, a direction vector, a name ("x", 'x'), or one of the trees x / y / z
+    "Plane": ["cast:Self", "from:Axis", "name:string"],  # a plane value, an axis (plane through the origin; "x" is an axis name), then the two-letter plane names
     "Tree": ["cast:Tree", "from:f32", "from:Vec<Tree>"],  # a tree, a number (constant), an array (union)
     "Vec<Tree>": ["array:Tree"],  # every element through Tree's own conversion (numbers, nested arrays)
 }
@@ -817,6 +833,10 @@ def _conversion_steps(fn, self_ty):
             if ty == self_ty:
                 ty = "Self" if self_ty != "Tree" else "Tree"
             out.append((n.get("ln", 0), n.get("c", 0), "cast:%s" % ty))
+        elif k == "MethodCall" and n["method"] in ("into_immutable_string", "into_string", "as_char", "into_char"):
+            # a name (string / character): matches *every* string, so it must come after the conversions that
+            # understand other spellings of the same names
+            out.append((n.get("ln", 0), n.get("c", 0), "name:%s" % ("char" if "char" in n["method"] else "string")))
         elif k == "MethodCall" and n["method"] in ("into_array", "into_typed_array"):
             out.append((n.get("ln", 0), n.get("c", 0), "array?" if n["method"] == "into_array" else "typed_array"))
         elif k == "Call":
